@@ -68,8 +68,8 @@ theorem invL_init (cfg : Cfg) (lw : Nat) (line : List Sec) (hz : NlZero line) :
   · intro h; simp [initSt]; omega
   · intro _; simp [initSt]
 
-theorem invL_step {cfg : Cfg} {sym lw : Nat} {line : List Sec} (st st' : St)
-    (hi : InvL cfg lw line st) (h : StepRel cfg sym lw st st') : InvL cfg lw line st' := by
+theorem invL_step {fx : Fixes} {cfg : Cfg} {sym lw : Nat} {line : List Sec} (st st' : St)
+    (hi : InvL cfg lw line st) (h : StepRel fx cfg sym lw st st') : InvL cfg lw line st' := by
   obtain ⟨htext, hlen, hcount, hfresh, hnlz⟩ := hi
   have hsub : ∀ {style gs rest}, st.stack = (style, gs) :: rest → NlZero rest := by
     intro style gs rest hs sec hsec
@@ -86,7 +86,7 @@ theorem invL_step {cfg : Cfg} {sym lw : Nat} {line : List Sec} (st st' : St)
     · have := isLoneNl_width hnl (hsub hs)
       simp only [rowWidth_append, rowWidth, hlen, this]; omega
     · intro h; simp at h; rw [hl] at h; cases h
-  | split0 style gs rest hs hl hge hnf hw =>
+  | split0 style gs rest hs hl hge hnf hw hns =>
     refine ⟨?_, by simp [rowWidth], ?_, ?_, by rw [← hs]; exact hnlz⟩
     · rw [← htext, hs]
       simp only [stripResult_append, stripResult_single_concat]
@@ -99,8 +99,8 @@ theorem invL_step {cfg : Cfg} {sym lw : Nat} {line : List Sec} (st st' : St)
     refine ⟨?_, by simp [rowWidth], ?_, ?_, ?_⟩
     · rw [← htext, hs]
       simp only [stripResult_append]
-      have : st.curr ++ [(style, (takeFit ((gsWidth gs - (st.len + gsWidth gs - lw)) - cfg.leftSym.w) gs).1), (sym, [cfg.leftSym])]
-           = (st.curr ++ [(style, (takeFit ((gsWidth gs - (st.len + gsWidth gs - lw)) - cfg.leftSym.w) gs).1)]) ++ [(sym, [cfg.leftSym])] := by simp
+      have : st.curr ++ [(style, (takeFit (widthLeftF fx cfg lw st.len gs) gs).1), (sym, [cfg.leftSym])]
+           = (st.curr ++ [(style, (takeFit (widthLeftF fx cfg lw st.len gs) gs).1)]) ++ [(sym, [cfg.leftSym])] := by simp
       rw [this, stripResult_single_concat]
       simp only [explode_append, explode_cons, explode_nil, List.append_nil, List.append_assoc]
       congr 2
